@@ -180,12 +180,12 @@ type ReplayFile struct {
 }
 
 type ReplayResult struct {
-	Failed   []string
-	Reached  []string
-	Panic    string
+	Failed         []string
+	Reached        []string
+	Panic          string
 	AssumeViolated bool
-	Done     bool
-	Output   string
+	Done           bool
+	Output         string
 }
 
 // WriteReplay stores a counterexample under VerifDir/replay and returns its path.
@@ -261,10 +261,11 @@ func tail(s string, n int) string {
 
 // Confirms reports whether the native run reproduces the violated obligation.
 func (r *ReplayResult) Confirms(kind, tag string) bool {
-	if r.AssumeViolated {
-		return false
-	}
+	// an assert that failed was evaluated before any later assumption was violated
 	if kind == "panic" {
+		if r.AssumeViolated {
+			return false
+		}
 		return r.Panic != ""
 	}
 	for _, f := range r.Failed {
